@@ -86,6 +86,11 @@ def run(ctx):
     for _ in range(100 if q else 2000):
         words.append([rnd.choice(keys) for _ in range(rnd.randint(3, 8))])
     T = [D.run_word([S[k] for k in w]) for w in words]
+    # bursts: several datagrams read in one event-loop iteration, a callback that suspends before it is done (each is still delivered once)
+    for w in [["valid:p1:s4"] * 5, ["valid:p3:s4", "truncated:10", "valid:p0:s6", "foreign:b'private'", "valid:p1:s4b", "garbage:1", "valid:pall:s4"],
+              ["valid:p0:s4", "valid:p0:s4"]] + [[rnd.choice(keys) for _ in range(6)] for _ in range(15 if q else 150)]:
+        w = [k for k in w if not k.startswith("indef")]
+        T.append(D.run_word([S[k] for k in w], mode="burst"))
     # the library's loggers at DEBUG (a configuration): large and small notifications are delivered all the same
     for w in [["valid:pbig:s4", "valid:p0:s4"], ["valid:pall:s6", "garbage:1", "valid:pbig:s4b"]] + [[rnd.choice(keys) for _ in range(4)] for _ in range(20 if q else 200)]:
         T.append(D.run_word([S[k] for k in w], debuglog=True))
@@ -101,7 +106,7 @@ def run(ctx):
     ctx.judge(T, verdicts, signature=sig, nontrivial=lambda tr, v: json.dumps(tr["scenario"]["word"]) if v[2] >= 1 else None)
     ctx.rule = ("words over {well-formed v2c notifications with 0..19 payload bindings of every value type from IPv4 and IPv6 senders, twelve foreign communities (prefix, "
                 "case, non-ASCII, '@'-suffixed variants; listeners whose own community contains '@'), truncations, garbage, intact envelopes around broken PDU content (7 kinds), indefinite-length octets at 4 depths, empty datagram, a v3 message, a Response PDU, v1-framed notifications}: every word of length <= %d over "
-                "six representatives, every malformed datagram before / between / after valid ones, seeded longer words; fed through the real "
+                "six representatives, every malformed datagram before / between / after valid ones, seeded longer words; fed one by one and in bursts (one event-loop iteration, suspending callback) through the real "
                 "SNMPTrapReceiverProtocol and the callback register_trap_callback installs, and through a real loopback socket; non-trivial = >= 1 expected delivery") % (3 if q else 4)
     ctx.assumptions = ["whether a datagram is a well-formed matching notification is decided by Ber.tla on the raw bytes",
                        "well-formed messages with the matching community that are not SNMPv2c notifications (a v1-framed notification PDU, a Response PDU) are left unspecified: delivering them or not is accepted (weaker reading)"]
